@@ -25,7 +25,7 @@ setup)
 	;;
 quick|thorough)
 	prop="${2:?property id}"
-	build || { echo "VIOLATION property=$prop replay=$VERIF_DIR/replay/build-failure.txt"; exit 1; }
+	build || { mkdir -p "$VERIF_DIR/replay"; echo "the checker under $VERIF_DIR/checker does not build" > "$VERIF_DIR/replay/build-failure.txt"; echo "VIOLATION property=$prop replay=$VERIF_DIR/replay/build-failure.txt"; exit 1; }
 	exec "$VERIF_DIR/bin/gleecheck" -repo "$REPO" -verif "$VERIF_DIR" -tier "$mode" -prop "$prop"
 	;;
 replay)
